@@ -127,14 +127,16 @@ func drawSize(t *rapid.T, label string, max int) int {
 	case 7:
 		return edge(8192)
 	case 8, 9:
-		return rapid.IntRange(128, 2000).Draw(t, label)
+		if max > 128 {
+			return rapid.IntRange(128, min(2000, max)).Draw(t, label)
+		}
 	case 10:
 		if max > 2000 {
 			return rapid.IntRange(2000, max).Draw(t, label)
 		}
 		return max
 	}
-	return rapid.IntRange(0, 127).Draw(t, label)
+	return rapid.IntRange(0, min(127, max)).Draw(t, label)
 }
 
 // fitTotal: the largest pad <= want for which the whole unit is at most want bytes (the
